@@ -7,7 +7,8 @@ Open Scope Z_scope.
 (* how the same data is handed to the code: Series, DataFrame, 1-d ndarray, 2-d ndarray *)
 Inductive form := FS | FD | FA1 | FA2.
 
-Definition JCell (c : cell) : J := match c with Some z => JZ z | None => JNaN end.
+Definition JCell (c : cell) : J :=
+  match c with Some (Fin z) => JZ z | Some PInf => JS "inf" | Some NInf => JS "-inf" | None => JNaN end.
 Definition JRows (rows : list row) : J := JL (map (fun r => JL (map JCell r)) rows).
 Definition JLabels (lf : lframe) : J := JL (map (fun p => JZ (fst p)) lf).
 
